@@ -538,6 +538,15 @@ func specCompsOK(cs []Component) bool {
 //@   ensures fresh(result) && len(result) >= 10 && len(result) < 1<<20
 //@   ensures result[0] == byte(c.eventID>>24) && result[1] == byte(c.eventID>>16) && result[2] == byte(c.eventID>>8) && result[3] == byte(c.eventID)
 //@   ensures (result[4] >= 128) == c.eventCancelIndicator && result[4]%128 == 0x7f
+//@   ensures (result[5] >= 128) == c.outOfNetworkIndicator && ((result[5]/64)%2 == 1) == c.isProgramSplice && ((result[5]/32)%2 == 1) == c.hasDuration && ((result[5]/16)%2 == 1) == c.spliceImmediate && result[5]%16 == 0x0f
+//@   ensures c.isProgramSplice && !c.spliceImmediate && c.hasPTS ==> len(result) >= 15 && result[6] == 0xFE|byte(c.pts>>32)&0x01 && result[7] == byte(c.pts>>24) && result[8] == byte(c.pts>>16) && result[9] == byte(c.pts>>8) && result[10] == byte(c.pts)
+//@   ensures c.isProgramSplice && !c.spliceImmediate && !c.hasPTS ==> len(result) >= 11 && result[6] == 0x7E
+//@   ensures c.isProgramSplice && c.spliceImmediate && !c.hasDuration ==> len(result) == 10
+//@   ensures c.isProgramSplice && c.spliceImmediate && c.hasDuration ==> len(result) == 15
+//@   ensures c.isProgramSplice && !c.spliceImmediate && c.hasPTS && c.hasDuration ==> len(result) == 20
+//@   ensures c.isProgramSplice && !c.spliceImmediate && c.hasPTS && !c.hasDuration ==> len(result) == 15
+//@   ensures c.isProgramSplice && !c.spliceImmediate && !c.hasPTS && c.hasDuration ==> len(result) == 16
+//@   ensures c.isProgramSplice && !c.spliceImmediate && !c.hasPTS && !c.hasDuration ==> len(result) == 11
 //@   ensures result[len(result)-4] == byte(c.uniqueProgramId>>8) && result[len(result)-3] == byte(c.uniqueProgramId) && result[len(result)-2] == byte(c.availNum) && result[len(result)-1] == byte(c.availsExpected)
 //@   ensures c.hasDuration ==> len(result) >= 15 && result[len(result)-8] == byte(c.duration>>24) && result[len(result)-7] == byte(c.duration>>16) && result[len(result)-6] == byte(c.duration>>8) && result[len(result)-5] == byte(c.duration)
 //@   ensures c.hasDuration && c.autoReturn ==> result[len(result)-9] == 0xFE|byte(c.duration>>32)&0x01
@@ -549,6 +558,7 @@ func specCompsOK(cs []Component) bool {
 //@     invariant fresh(bytes) && verifSeparate(bytes, componentsBytes) && 6 <= len(bytes) && len(bytes) <= 11
 //@     invariant bytes[0] == byte(c.eventID>>24) && bytes[1] == byte(c.eventID>>16) && bytes[2] == byte(c.eventID>>8) && bytes[3] == byte(c.eventID)
 //@     invariant (bytes[4] >= 128) == c.eventCancelIndicator && bytes[4]%128 == 0x7f
+//@     invariant (bytes[5] >= 128) == c.outOfNetworkIndicator && ((bytes[5]/64)%2 == 1) == c.isProgramSplice && ((bytes[5]/32)%2 == 1) == c.hasDuration && ((bytes[5]/16)%2 == 1) == c.spliceImmediate && bytes[5]%16 == 0x0f
 //@     decreases len(c.components) - rangeindex
 
 //@ func (c *componentOffset) data() []byte
